@@ -312,4 +312,5 @@ func main() {
 
 	writeIfChanged(filepath.Join(*out, "Helpers.lean"), genHelpers(cemi))
 	writeIfChanged(filepath.Join(*out, "Dpt.lean"), genDpt(dpt))
+	writeIfChanged(filepath.Join(*out, "Source.lean"), genSource(*repo, "Knx.Gen.Source"))
 }
